@@ -43,7 +43,7 @@ def check(R, F):
                 if flag['k'] == 'const':
                     R.require(const_name(flag) == 'false', 'prune', key, ric.where(b), 'flag is constant false', 'flag is the constant %s' % const_name(flag))
                     continue
-                sl = slice_of(ric, flag)
+                sl = slice_of(ric, flag, control=True)
                 names = sl.call_names()
                 children_empty = any(n2.endswith('HashMap::<K, V, S>::is_empty') or n2.endswith('::is_empty') for n2 in names) and any(fp and fp[-1] == 'children' for fp in sl.field_paths())
                 data_none_in_flag = any(n2.endswith('Option::<T>::is_none') or n2.endswith('Option::<T>::is_some') for n2 in names) and any(fp and fp[-1] == 'data' for fp in sl.field_paths())
